@@ -122,6 +122,7 @@ pub struct EnergyAppSpec {
 }
 
 pub const ENERGY_VEHICLE: &str = "veh";
+pub const ENERGY_VEHICLE_2: &str = "veh2";
 
 impl AppSpec {
     pub fn simple(net: NetCase) -> AppSpec {
@@ -304,6 +305,19 @@ pub fn write_app(spec: &AppSpec, dir: &CaseDir) -> std::io::Result<AppFiles> {
         if let Some((size, ps, pg)) = en.cache {
             veh.insert("float_cache_policy".into(), json!({"cache_size": size, "key_precisions": [ps, pg]}));
         }
+        // combustion configurations carry a second vehicle (ENERGY_VEHICLE_2): the other bundled
+        // model, another adjustment, a prediction cache of its own with the same key precisions
+        let mut vehicles = vec![Value::Object(veh.clone())];
+        if !en.bev {
+            let other = crate::engine::repo_root()
+                .join("rust/routee-compass-powertrain/src/routee/test")
+                .join(if en.model == 1 { "Toyota_Camry.bin" } else { "2016_CHEVROLET_Volt_Charge_Sustaining.bin" });
+            let mut veh2 = veh.clone();
+            veh2.insert("name".into(), json!(ENERGY_VEHICLE_2));
+            veh2.insert("model_input_file".into(), json!(s(&other)));
+            veh2.insert("real_world_energy_adjustment".into(), json!(en.adjustment * 0.5 + 0.6));
+            vehicles.push(Value::Object(veh2));
+        }
         cfg.insert(
             "traversal".into(),
             json!({"type": "energy_model",
@@ -314,7 +328,7 @@ pub fn write_app(spec: &AppSpec, dir: &CaseDir) -> std::io::Result<AppFiles> {
                    "distance_unit": "miles",
                    "time_model": {"type": "speed_table", "speed_table_input_file": s(&sp),
                                   "speed_unit": "kilometers_per_hour", "distance_unit": "miles", "time_unit": "hours"},
-                   "vehicles": [Value::Object(veh)]}),
+                   "vehicles": vehicles}),
         );
     } else {
     match &spec.trav {
